@@ -68,6 +68,61 @@ def compare(ctx, text, sysname, ref, strutils, kind):
     return got[0] == 'ok'
 
 
+LINE = {
+    'image': 'image: disk.img', 'file_format_upper': 'file format: QCOW2',
+    'virtual_size': 'virtual size: 64M (67108864 bytes)', 'virtual_size_b': 'virtual size: 1.5K',
+    'disk_size': 'disk size: 96K', 'disk_size_none': 'disk size: unavailable', 'cluster_size': 'cluster_size: 65536',
+    'backing_file': 'backing file: base.img', 'backing_file_actual': 'backing file: base.img (actual path: /a/base.img)',
+    'encrypted': 'encrypted: yes', 'snap_header': 'Snapshot list:',
+    'id_header': 'ID        TAG                 VM SIZE                DATE       VM CLOCK',
+    'row': '1         snap1               1.7G 2011-10-04 19:04:00   32:06:34.974',
+    'row5': '2         snap2               1.7G 2011-10-04 19:04:00', 'row_badclock': '3 snap3 1.7G 2011-10-04 19:04:00 32-06-34',
+    'junk': 'this line is neither a key nor a row', 'blank': '   ',
+}
+VALUE = {'image': 'disk.img', 'file_format_upper': 'qcow2', 'virtual_size': 67108864, 'virtual_size_b': 1536,
+         'disk_size': 98304, 'disk_size_none': 0, 'cluster_size': 65536, 'backing_file': 'base.img',
+         'backing_file_actual': '/a/base.img', 'encrypted': 'yes', 'absent': None}
+
+
+def qemu_parser_stage(ctx, qemu):
+    """Spec growth: the human-format parser of QemuImgInfo as a transition system (spec/QemuInfo.tla)."""
+    res = tlc.run('MC_QemuInfo', 'MC_QemuInfo_3.cfg' if ctx.quick else 'MC_QemuInfo_4.cfg', workdir=ctx.work, workers=8,
+                  stdout_path=os.path.join(ctx.work, 'qi.out'), timeout=900)
+    ctx.tlc(res, 'QemuInfo parser: LastWins, RowsOnlyAfterHeader, Progress', counts_as_states=False)
+    n = 0
+    errs = 0
+    for rec in res.records:
+        text = '\n'.join(LINE[c] for c in rec['input']) + '\n'
+        with warnings.catch_warnings():
+            warnings.simplefilter('ignore')
+            got = call(lambda: qemu.QemuImgInfo(text, format='human'))
+        n += 1
+        if rec['err']:
+            errs += 1
+            ok = got[0] == 'ValueError'
+            obs = got[0]
+        else:
+            if got[0] != 'ok':
+                ok, obs = False, got[0]
+            else:
+                i = got[1]
+                f = rec['fields']
+                obs = {'image': i.image, 'file_format': i.file_format, 'virtual_size': i.virtual_size,
+                       'disk_size': i.disk_size, 'cluster_size': i.cluster_size, 'backing_file': i.backing_file,
+                       'encrypted': i.encrypted, 'snapshots': len(i.snapshots)}
+                want = {k: VALUE[f[k]] for k in f}
+                want['snapshots'] = max(rec['snaps'], 0)
+                ok = obs == want
+        if not ok:
+            ctx.violation({'kind': 'qemu-parser', 'err': rec['err']},
+                          {'lines': rec['input'], 'text': text, 'expected': rec, 'observed': repr(obs)},
+                          'QemuImgInfo(human) on lines %s: %s, specification %s' % (rec['input'], obs, {k: v for k, v in rec.items() if k != 'input'}))
+    ctx.cov['evaluations'] += n
+    ctx.stage('qemu-parser', inputs=n, header_errors=errs)
+    if errs == 0:
+        raise MachineryError('vacuity: no snapshot-header error case')
+
+
 def run(ctx):
     from oslo_utils import strutils
     from oslo_utils.imageutils import qemu
@@ -161,6 +216,7 @@ def run(ctx):
                           'QemuImgInfo size field %r: expected %s, got %s' % (field, want, obs))
     ctx.cov['evaluations'] += q
     ctx.stage('qemu-sizes', cases=q)
+    qemu_parser_stage(ctx, qemu)
     # 4. binding self-test: an exponent table off by one must be exposed
     saved = dict(strutils.UNIT_PREFIX_EXPONENT)
 
